@@ -8,14 +8,24 @@ git checkout -q -- . ; git clean -fdq -e target
 DEMO=$(ls $M/demo.rs 2>/dev/null)
 [ -z "$DEMO" ] && { echo "RESULT $M no demo.rs"; exit 2; }
 git apply $M/patch.diff || { echo "RESULT $M patch does not apply"; exit 2; }
-mkdir -p ciphercore-base/tests; cp $DEMO ciphercore-base/tests/seeded_demo.rs
-cargo test -p ciphercore-base --test seeded_demo --offline > $M/confirm_demo_with.log 2>&1; D1=$?
-rm -f ciphercore-base/tests/seeded_demo.rs
+# the demonstration is either an integration test (tests/) or an example binary (examples/), as its header says
+if head -30 $DEMO | grep -q "examples/"; then KIND=example; else KIND=test; fi
+run_demo() {
+  if [ $KIND = example ]; then
+    mkdir -p ciphercore-base/examples; cp $DEMO ciphercore-base/examples/seeded_demo.rs
+    cargo run -p ciphercore-base --example seeded_demo --offline > $1 2>&1; R=$?
+    rm -f ciphercore-base/examples/seeded_demo.rs
+  else
+    mkdir -p ciphercore-base/tests; cp $DEMO ciphercore-base/tests/seeded_demo.rs
+    cargo test -p ciphercore-base --test seeded_demo --offline > $1 2>&1; R=$?
+    rm -f ciphercore-base/tests/seeded_demo.rs
+  fi
+  return $R
+}
+run_demo $M/confirm_demo_with.log; D1=$?
 cargo test --workspace --lib --no-fail-fast --offline > $M/confirm_suite_with.log 2>&1
 python3 /verif/baseline_check.py $M/confirm_suite_with.log > $M/confirm_suite_with.sum 2>&1; S=$?
 git checkout -q -- .
-mkdir -p ciphercore-base/tests; cp $DEMO ciphercore-base/tests/seeded_demo.rs
-cargo test -p ciphercore-base --test seeded_demo --offline > $M/confirm_demo_without.log 2>&1; D0=$?
-rm -f ciphercore-base/tests/seeded_demo.rs
+run_demo $M/confirm_demo_without.log; D0=$?
 git checkout -q -- . ; git clean -fdq -e target
 echo "RESULT $M demo_with_change_exit=$D1 suite_ok_exit=$S demo_without_change_exit=$D0 $(cat $M/confirm_suite_with.sum | head -1)"
